@@ -52,7 +52,7 @@ def ipv4_full(tier, cfg="default", tag=""):
     for n in lens(tier, (1, 3, 4, 5), range(1, 12)):
         o.append(Obl(f"ipv4_url{tag}_n{n}", "ipv4_parse.c", [U("vk_url_parse_ipv4", cfg)],
                      defs={"N": n, "KERNEL": "F_vk_url_parse_ipv4"}, unwind=n + 2, unwindset=us,
-                     timeout=(120 if tier == Q else 1500), mem_gb=10, weight=5, backend=("cadical" if n >= 5 else None)))
+                     timeout=(120 if tier == Q else 1500), mem_gb=10, weight=5, backend=("kissat" if n >= 5 else None)))
     return o
 
 
@@ -273,6 +273,128 @@ def canparse(tier):
                      unwindset=["ref_ipv4_parse.2:4", "ref_ipv4_parse.3:4"], witness=(n >= 8), mem_gb=8,
                      timeout=(200 if tier == Q else 1800), weight=n))
     return o
+
+
+def twins(tier):
+    o = []
+    us = ["ref_ipv4_parse.2:4", "ref_ipv4_parse.3:4", "ref_ipv4_serialize.0:5"]
+    for n in lens(tier, (1, 2, 3), range(1, 11)):
+        o.append(Obl(f"twin_parse_ipv4_n{n}", "twin.c", [U(["vk_url_parse_ipv4", "vk_agg_parse_ipv4"], stubs=STR_STUBS)],
+                     defs={"N": n, "KERNEL_A": "F_vk_url_parse_ipv4", "KERNEL_B": "F_vk_agg_parse_ipv4", "PRECOND_IPV4": 1},
+                     unwind=max(n + 2, 6), unwindset=us, maxcpy=16, mem_gb=14, timeout=(420 if tier == Q else 1800), weight=6))
+    return o
+
+
+def prop_C04(tier):
+    return twins(tier)
+
+
+def prop_C12(tier):
+    o = [x for x in pct_decode(tier) if "form" in x.name]
+    for n in lens(tier, (1, 2, 3), range(0, 5)):
+        o.append(Obl(f"form_roundtrip_plus_n{n}", "pct_roundtrip.c", [U(["vk_percent_encode", "vk_percent_decode", "vk_form_decode"])],
+                     defs={"N": n, "FORM": 1, "PLUS": 1}, unwind=3 * n + 4, witness=(n >= 1), mem_gb=10,
+                     timeout=(200 if tier == Q else 1200), weight=4))
+    return o
+
+
+def capi(tier):
+    o = []
+    for n in lens(tier, (9, 13), (5, 7, 9, 11, 13, 15)):
+        o.append(Obl(f"capi_getters_n{n}", "capi.c", [U("vk_capi_get", stubs=STR_STUBS)], defs={"N": n, "BN": 15}, unwind=17,
+                     maxcpy=16, mem_gb=12, timeout=(300 if tier == Q else 1800), weight=8))
+    o.append(Obl("capi_failed_mutators_n3", "capi_misc.c", [U("vk_capi_failed_mutators", stubs=STR_STUBS)], defs={"N": 3}, unwind=8,
+                 maxcpy=16, mem_gb=8, timeout=300))
+    o.append(Obl("capi_owned_string_release", "capi_misc.c", [U("vk_capi_owned")], defs={"N": 1, "OWNED": 1}, unwind=4,
+                 no_heap=False, extra_flags=("--memory-leak-check", "--memory-cleanup-check"), mem_gb=6, timeout=300))
+    return o
+
+
+def prop_C17(tier):
+    return capi(tier)
+
+
+INFLATE = "_ZN3ada4idna7deflate11inflate_rawEPKhmPhm"
+CRC32 = "_ZN3ada4idna10crc32_ieeeEPKhm"
+
+
+def tables(tier):
+    o = []
+    for fair in lens(tier, (1, 2, 3), (1, 2, 3, 4, 5)):
+        u = Unit("noinline", ["vk_ensure_tables", "vk_tables_published", "vk_tables_env_publish"], stubs=[INFLATE, CRC32], atomics_hook=True)
+        o.append(Obl(f"tables_protocol_fair{fair}", "tables.c", [u],
+                     defs={"VK_OWN_NOTHROW_NEW": 1, "SPIN_FAIR": fair, "G_STATE_ADDR()": "(G__ZN3ada4idna17tables_init_stateE)",
+                           "INFLATE_STUB": "X_" + INFLATE, "CRC_STUB": "X_" + CRC32},
+                     unwind=fair + 4, no_heap=False, mem_gb=8, timeout=(300 if tier == Q else 1800), replay="generated"))
+    return o
+
+
+def prop_C13(tier):
+    return tables(tier)
+
+
+def canon(tier):
+    o = []
+    names = {0: "protocol", 1: "username", 2: "password", 3: "port", 4: "search", 5: "hash", 6: "portproto", 7: "ipv6host"}
+    for which in (0, 1, 3, 4, 5, 6, 7):
+        for n in lens(tier, (0, 2, 4) if which not in (3, 6) else (0, 2, 5), range(0, 6) if which not in (3, 6) else range(0, 8)):
+            if which in (1, 4, 5) and n > 4:
+                continue
+            if which == 0 and tier == Q and n > 0:
+                continue   # the protocol canonicaliser does not finish within the quick caps (10 GB): thorough tier only
+            for proto in ((1, 4) if which == 6 and tier == Q else (0, 1, 2, 3, 4, 5) if which == 6 else (0,)):
+                d = {"N": n, "WHICH": which, "PROTO": proto}
+                o.append(Obl(f"canon_{names[which]}{'_p%d' % proto if which == 6 else ''}_n{n}", "canon.c", [U("vk_canon", stubs=STR_STUBS)], defs=d,
+                             unwind=max(n + 3, 8), unwindset=["ref_percent_encode.0:17"], maxcpy=16, witness=(n >= 2), mem_gb=10,
+                             timeout=(240 if tier == Q else 1200), weight=3 + n))
+    o.append(Obl("charclass_soundness", "charclass.c", [U("vk_char_class")], unwind=3, mem_gb=4))
+    return o
+
+
+def escapes(tier):
+    o = []
+    for which in (0, 1):
+        for n in lens(tier, (0, 2, 4), range(0, 8)):
+            o.append(Obl(f"escape_{'regexp' if which else 'pattern'}_n{n}", "escape.c", [U("vk_escape", stubs=STR_STUBS)],
+                         defs={"N": n, "WHICH": which}, unwind=n + 3, maxcpy=16, witness=(n >= 1), mem_gb=8,
+                         timeout=(240 if tier == Q else 1200)))
+    return o
+
+
+def prop_C15(tier):
+    return canon(tier)
+
+
+def prop_C14(tier):
+    return escapes(tier)
+
+
+def puny(tier):
+    o = []
+    for n in lens(tier, (0, 1, 2, 3), range(0, 6)):
+        o.append(Obl(f"puny_verify_vs_decode_n{n}", "puny.c", [U(["vk_puny_verify", "vk_puny_decode"])], defs={"N": n, "MODE": 0, "K": 1},
+                     unwind=n + 3, no_heap=(n <= 3), mem_gb=10, witness=(n >= 2), timeout=(240 if tier == Q else 1800), weight=3 + n))
+    for k in lens(tier, (1,), (1, 2, 3)):
+        o.append(Obl(f"puny_roundtrip_k{k}", "puny.c", [U(["vk_puny_encode", "vk_puny_decode"])], defs={"N": 1, "MODE": 1, "K": k},
+                     unwind=12, no_heap=(k <= 3), mem_gb=12, timeout=(300 if tier == Q else 3000), weight=8, backend="kissat"))
+    return o
+
+
+IDNA_MAP = "_ZN3ada4idna3mapESt17basic_string_viewIDiSt11char_traitsIDiEERNSt7__cxx1112basic_stringIDiS3_SaIDiEEE"
+
+
+def idna_ascii(tier):
+    return [Obl(f"idna_ascii_n{n}", "idna_ascii.c", [U("vk_idna_to_ascii", stubs=STR_STUBS + [IDNA_MAP])], defs={"N": n}, unwind=n + 3,
+                maxcpy=16, witness=(n >= 1), mem_gb=10, timeout=(240 if tier == Q else 1800), weight=3 + n, replay="generated")
+            for n in lens(tier, (0, 1, 4, 8), range(0, 13))]
+
+
+def prop_C06(tier):
+    return idna_ascii(tier) + [x for x in puny(tier) if tier != Q or x.name in ("puny_verify_vs_decode_n0",)]
+
+
+def prop_C16(tier):
+    return idna_ascii(tier) + [x for x in puny(tier) if "roundtrip" in x.name and tier != Q]
 
 
 def prop_C08(tier):
